@@ -42,12 +42,13 @@ TAGS = {
     20: 'to_dict() is not accepted by json.dumps', 21: 'different dataset but same key',
     23: 'equal datasets (DataFrame.equals) but different DatasetHash', 24: 'different datasets but the same DatasetHash',
     25: 'DatasetHash differs between interpreter processes',
+    45: 'graph built by add_compartment / add_flow / remove_flow differs from the modelled builder history',
     43: 'convert_model(m, generic) == m differs from model', 44: 'convert_model(m, generic) is not equal to the model',
     40: 'Results.to_json differs from model', 41: 'read_results differs from model',
     42: 'read_results(r.to_json()) does not give the results object back',
     30: 'DatasetHash equality differs from equality of the modelled hash input', 31: 'DataFrame.equals differs from model',
 }
-CORR = (1, 2, 3, 4, 5, 6, 7, 8, 9, 10, 30, 31, 40, 41, 43)
+CORR = (1, 2, 3, 4, 5, 6, 7, 8, 9, 10, 30, 31, 40, 41, 43, 45)
 ORACLE = (11, 12, 13, 14, 15, 16, 17, 18, 19, 20, 21, 23, 24, 25, 42, 44)
 F_DERIV, F_INTKEY, F_SREPR, F_EQDOSING, F_TOOLORDER, F_INDEXREPR = (
     'C12-DERIVATIVES-TEXT', 'C12-JSON-INTKEY', 'C12-SREPR-DISTRIBUTES', 'C12-EQ-DOSING-ORDER',
@@ -152,7 +153,7 @@ def opt_obj(kind, o, info, what):
         return 'None'
 
 
-def observe(kind, x, ctx=None, with_generic=False):
+def observe(kind, x, ctx=None, with_generic=False, spec=None):
     """One object: returns (coq term of type case, info)."""
     d = x.to_dict()
     fd = gen.from_dict_of(kind, x)
@@ -186,7 +187,9 @@ def observe(kind, x, ctx=None, with_generic=False):
     enc = None
     if kind == 'model' and dumps_ok:
         enc = 'Some ' + ex.pyv(ex.canon_dict(kind, encoded_dict(x)))
-    info = {}
+    hist = gen.csys_history(spec) if (kind == 'csys' and isinstance(spec, dict)) else None
+    info = {'history_ops': None if hist is None else len(hist),
+            'history_removes': 0 if hist is None else sum(1 for h in hist if h[0] == 'remove')}
     xterm = ex.obj(kind, x)            # the only export that may skip the case (Unconvertible propagates)
 
     def dict_term(v, what):
@@ -202,7 +205,8 @@ def observe(kind, x, ctx=None, with_generic=False):
         cobool(eq_back), cobool(eq_json), ex.cbool(dumps_ok),
         ex.out_preds(x) if kind == 'csys' else 'None',
         ex.cbool(ok), ex.cbool(idem), cobool(viastr), cobool(viafile),
-        'None' if enc is None else f'({enc})', cobool(conv)]) + ')')
+        'None' if enc is None else f'({enc})', cobool(conv),
+        'None' if hist is None else f'(Some {ex.history(hist)})']) + ')')
     info.update({'kind': kind, 'leaves': nleaves, 'text_len': len(js), 'eq_back': eq_back, 'eq_json': eq_json,
                  'dumps_ok': dumps_ok})
     return term, info
@@ -453,9 +457,10 @@ def gen_csys(rng):
     rng.shuffle(flows)
     ops += flows
     # relabelling / removal steps, as the transformations do them
+    pure = rng.random() < 0.4     # only remove_flow (and re-entering): a history the Coq model of the builder replays
     for _ in range(rng.choice([0, 0, 1, 2])):
         nm = rng.choice(names)
-        r = rng.random()
+        r = 0.9 if pure else rng.random()
         if r < 0.35:
             ops.append(['set_lag', nm, rng.choice(['ALAG', '0'])])
         elif r < 0.6:
@@ -1035,7 +1040,7 @@ def run_single(ctx, specs, label, quiet=False, generic_every=1):
             if kind == 'model':
                 wg = nmodel % generic_every == 0
                 nmodel += 1
-            term, info = observe(kind, x, ctx, with_generic=wg)
+            term, info = observe(kind, x, ctx, with_generic=wg, spec=spec)
         except ex.Unconvertible as e:
             skipped[str(e)] = skipped.get(str(e), 0) + 1
             continue
@@ -1166,7 +1171,7 @@ def run(ctx):
 
     # ---- single objects
     rng = ctx.rng
-    ncomp = 200 if quick else 2500
+    ncomp = 180 if quick else 2500
     nmodels = 10 if quick else 100
     specs = list(reg_single)
     specs += [gen_component(rng) for _ in range(ncomp)]
@@ -1292,6 +1297,8 @@ def run(ctx):
         'guard_derivatives_false': sum(1 for v in verdicts if 201 in v),
         'guard_intkey_false': sum(1 for v in verdicts if 203 in v),
         'nan': sum(1 for v in verdicts if 205 in v),
+        'systems_with_modelled_history': sum(1 for i in infos if i.get('history_ops')),
+        'modelled_histories_with_remove_flow': sum(1 for i in infos if i.get('history_removes')),
         'results_refused_by_exporter': sum(len(i.get('unconvertible_results', [])) for i in infos),
         'engine_contract_failed': sum(1 for v in verdicts if 17 in v),
         'graphs_not_output_first_or_illformed': sum(1 for v in verdicts if 206 in v),
